@@ -510,6 +510,37 @@ def limited(fn, *args):
         signal.signal(signal.SIGALRM, old)
 
 
+def stp_api_cases():
+    """SessionTicketPayload as the library itself builds it - create() with every combination of its optional
+    arguments - must serialise to the encoding of the value those arguments denote (lowest format version that
+    holds them all)"""
+    from tlslite.x509certchain import X509CertChain
+    out = []
+    der = [48, 3, 2, 1, 5]
+    ms, nonce, tm, cs = list(range(1, 49)), [9, 8, 7], 1700000123, 0xC02F
+    for chain in (False, True):
+        for etm in (False, True):
+            for ems in (False, True):
+                for sni in ([], [104, 111, 115, 116]):
+                    ver = 2 if (etm or ems or sni) else (1 if chain else 0)
+                    v = [ver, ms, [3, 3], cs, nonce, nb(tm, 8)]
+                    if ver >= 1:
+                        v.append([[der, []]] if chain else [])
+                    if ver >= 2:
+                        v += [int(etm), int(ems), sni]
+                    name = "SessionTicketPayload%d" % ver
+                    try:
+                        t = M.SessionTicketPayload().create(BA(ms), (3, 3), cs, tm, BA(nonce),
+                                                            client_cert_chain=X509CertChain([cert(der)]) if chain else None,
+                                                            encrypt_then_mac=etm, extended_master_secret=ems, server_name=BA(sni))
+                        c = {"k": "W", "s": name, "v": v, "raised": False, "out": L(t.write())}
+                    except BaseException as e:   # noqa
+                        c = {"k": "W", "s": name, "v": v, "raised": True, "out": []}
+                    out.append((c, {"what": "write", "kind": "api-create", "j": 0, "tag": "api",
+                                    "note": "create(chain=%s, etm=%s, ems=%s, sni=%s)" % (chain, etm, ems, bool(sni))}))
+    return out
+
+
 def run_write(name, v):
     ad = A[name]
     try:
@@ -963,6 +994,9 @@ def run(tier):
         for c, m in res:
             cases.append(c)
             metas.append(m)
+    for c, m in stp_api_cases():
+        cases.append(c)
+        metas.append(m)
     bad, soft, counters = judge(rep, cases, timeout=900 if tier == "quick" else 2400)
     rep.traces = len(cases)
     schemas_seen = set()
